@@ -35,7 +35,12 @@ func main() {
 	dir := flag.String("dir", "/repo", "package directory")
 	second := flag.Bool("second", false, "second operator set: swapped adjacent statements, duplicated calls/sends")
 	third := flag.Bool("third", false, "third operator set (needs type information): a local variable or parameter replaced by another one of the identical type")
+	fourth := flag.Bool("fourth", false, "fourth operator set (needs type information): dropped operands of && and ||, a method / field / constant / function replaced by a sibling of the identical type, zero-valued results, dropped else branches, constant conditions")
 	flag.Parse()
+	if *fourth {
+		fourthSet(*dir)
+		return
+	}
 	if *third {
 		thirdSet(*dir)
 		return
